@@ -58,7 +58,7 @@ func init() {
 	mutant("second-data-emitter", "data-emitters", "serverConn.go", "func (sc *serverConn) writePing() {", "func (sc *serverConn) writeRaw(id uint32, b []byte) {\n	fr := AcquireFrameHeader()\n	fr.SetStream(id)\n	d := AcquireFrame(FrameData).(*Data)\n	d.SetData(b)\n	fr.SetBody(d)\n	sc.write(fr)\n}\n\nfunc (sc *serverConn) writePing() {")
 	// ---- C08 / KSA
 	mutant("endstream-any-type", "flag-scope", "serverConn.go", "if (fr.Type() == FrameData || fr.Type() == FrameHeaders) && fr.Flags().Has(FlagEndStream) {\n			strm.SetState(StreamStateHalfClosed)", "if fr.Flags().Has(FlagEndStream) {\n			strm.SetState(StreamStateHalfClosed)")
-	mutant("client-endstream-any-type", "flag-scope", "conn.go", "if (fr.Type() == FrameData || fr.Type() == FrameHeaders) && fr.Flags().Has(FlagEndStream) {", "if fr.Flags().Has(FlagEndStream) {")
+	mutant("client-endstream-any-type", "flag-scope", "conn.go", "		return c.block.endStream && fr.Flags().Has(FlagEndHeaders)\n	}\n\n	return false", "		return c.block.endStream && fr.Flags().Has(FlagEndHeaders)\n	}\n\n	return fr.Flags().Has(FlagEndStream)")
 	mutant("assert-wrong-case", "assertion-kinds", "conn.go", "		case FrameWindowUpdate:\n			c.addWindow(0, int32(fr.Body().(*WindowUpdate).Increment()))", "		case FrameWindowUpdate, FramePriority:\n			c.addWindow(0, int32(fr.Body().(*WindowUpdate).Increment()))")
 	mutant("window-limit-ge", "window-limit-strict", "serverConn.go", "if sc.clientWindow > 1<<31-1 {", "if sc.clientWindow >= 1<<31-1 {")
 	// ---- C01 / C09 / C13 / C20 server
@@ -77,7 +77,7 @@ func init() {
 	mutant("te-check-after-accept", "validators-dominate-accept", "serverConn.go", "		if bytes.Equal(k, StringTE) && !bytes.Equal(v, StringTrailers) {\n			return sc.rejectBlock(strm, fr, b, NewResetStreamError(ProtocolError, \"TE header field with a value other than trailers\"))\n		}\n", "")
 	mutant("client-status-range", "validators-dominate-accept", "conn.go", "if err != nil || n < 100 || n > 999 {", "if err != nil {")
 	mutant("content-length-mismatch-ignored", "validators-dominate-accept", "serverConn.go", "if strm.hasContentLength && strm.recvBody != strm.contentLength {", "if strm.hasContentLength && strm.recvBody > strm.contentLength {")
-	mutant("parse-error-skipped", "parse-error-rejects", "conn.go", "			n, err := parseUint(hf.ValueBytes())\n			if err != nil {\n				return errInvalidContentLength\n			}\n", "			n, err := parseUint(hf.ValueBytes())\n			if err != nil {\n				n = 0\n			}\n")
+	mutant("parse-error-skipped", "parse-error-rejects", "conn.go", "			n, err := parseUint(hf.ValueBytes())\n			if err != nil {\n				return c.skipFields(fr, b, errInvalidContentLength)\n			}\n", "			n, err := parseUint(hf.ValueBytes())\n			if err != nil {\n				n = 0\n			}\n")
 	mutant("parseuint-no-overflow-check", "decimal-accumulate-guarded", "strings.go", "		if n > (maxInt-int(c-'0'))/10 {\n			return 0, errInvalidUint\n		}\n", "")
 	mutant("tolower-unguarded", "name-fold-guard", "strings.go", "		if b[i] >= 'A' && b[i] <= 'Z' {\n			b[i] |= 32\n		}", "		b[i] |= 32")
 	mutant("bare-send-reader", "no-bare-send", "serverConn.go", "	select {\n	case sc.reader <- fr:\n		return true\n	case <-sc.writeStop:\n		ReleaseFrameHeader(fr)\n		return false\n	}", "	sc.reader <- fr\n	return true")
@@ -408,7 +408,7 @@ func init() {
 	mutant("client-one-octet-data-dropped", "client-response-shape", "conn.go", "		if data.Len() != 0 {", "		if data.Len() > 1 {")
 	mutant("client-status-range-conjunction", "client-response-shape", "conn.go", "			if err != nil || n < 100 || n > 999 {", "			if err != nil || n < 100 && n > 999 {")
 	mutant("client-status-not-stored", "client-response-shape", "conn.go", "			res.SetStatusCode(n)\n", "")
-	mutant("client-regular-not-marked", "client-response-shape", "conn.go", "		regularSeen = true\n", "		regularSeen = false\n")
+	mutant("client-regular-not-marked", "client-response-shape", "conn.go", "		c.block.regularSeen = true\n", "		c.block.regularSeen = false\n")
 	mutant("client-fields-dropped", "client-response-shape", "conn.go", "			res.Header.AddBytesKV(hf.KeyBytes(), hf.ValueBytes())\n", "")
 	mutant("client-initial-window-not-applied", "client-response-shape", "conn.go", "		c.applyInitialWindow(int32(st.MaxWindowSize()))\n", "")
 	mutant("client-settings-not-kept", "client-response-shape", "conn.go", "func (c *Conn) handleSettings(st *Settings) {\n	st.CopyTo(&c.serverS)\n", "func (c *Conn) handleSettings(st *Settings) {\n")
@@ -442,7 +442,7 @@ func init() {
 func init() {
 	mutant("phantom-field-server", "no-phantom-field", "serverConn.go", "		if len(b) == 0 && hf.Empty() {\n			// The fragment ended in a dynamic table size update, which\n			// consumes input without producing a field: there is nothing to\n			// validate or to hand to the request yet.\n			break\n		}\n", "")
 	mutant("phantom-guard-drops-last-field", "no-phantom-field", "serverConn.go", "		if len(b) == 0 && hf.Empty() {\n			// The fragment ended in a dynamic table size update, which\n			// consumes input without producing a field: there", "		if len(b) == 0 || hf.Empty() {\n			// The fragment ended in a dynamic table size update, which\n			// consumes input without producing a field: there")
-	mutant("phantom-field-client", "no-phantom-field", "conn.go", "		if len(b) == 0 && hf.Empty() {\n			// The fragment ended in a dynamic table size update, which\n			// consumes input without producing a field.\n			break\n		}\n", "")
+	mutant("phantom-field-client", "no-phantom-field", "conn.go", "		if len(b) == 0 && hf.Empty() {\n			// The fragment ended in a dynamic table size update, which\n			// consumes input without producing a field, or in the middle of\n			// a field that the next frame completes.\n			break\n		}\n", "")
 }
 
 func init() {
@@ -464,7 +464,7 @@ func init() {
 }
 
 func init() {
-	mutant("client-stops-at-last-stream-frame", "client-goaway-drain", "conn.go", "	return err != nil && errors.Is(err, FlowControlError)\n}", "	if err != nil && errors.Is(err, FlowControlError) {\n		return true\n	}\n\n	return c.state == connStateClosed && fr.Stream() == c.closeRef\n}")
+	mutant("client-stops-at-last-stream-frame", "client-goaway-drain", "conn.go", "	if err == nil {\n		return false\n	}\n\n	// A header block that does not decode", "	if err == nil {\n		return c.state == connStateClosed && fr.Stream() == c.closeRef\n	}\n\n	// A header block that does not decode")
 	mutant("client-drained-ignores-lower-streams", "client-goaway-drain", "conn.go", "		if id <= c.closeRef {\n			return false\n		}", "		if id == c.closeRef {\n			return false\n		}")
 	mutant("client-goaway-leaves-disclaimed-waiting", "client-goaway-drain", "conn.go", "				c.failAbove(ga.stream)\n", "")
 	mutant("client-fails-promised-streams-too", "retryable-pre-wire", "conn.go", "		if id > last {\n			ids = append(ids, id)\n		}", "		if id >= last {\n			ids = append(ids, id)\n		}")
@@ -626,4 +626,25 @@ func init() {
 	mutant("second-close-clears-the-reset-mark", "late-frames-on-reset-streams", "serverConn.go", "			closedStrms[id] = closedStrms[id] || resetSent", "			closedStrms[id] = resetSent")
 	mutant("close-stream-drops-the-reset-mark", "late-frames-on-reset-streams", "serverConn.go", "		markClosed(strmID, strm.resetSent)", "		markClosed(strmID, false)")
 	mutant("cancel-of-a-refused-stream-is-an-idle-reset", "late-frames-on-reset-streams", "serverConn.go", "					if _, closed := closedStrms[fr.Stream()]; !closed && fr.Stream() > sc.lastID {", "					if fr.Stream() > sc.lastID {")
+}
+
+func init() {
+	mutant("client-block-restarts-on-continuation", "client-block-state", "conn.go", "	if fr.Type() != FrameContinuation {\n		hb.carry = hb.carry[:0]", "	if fr.Type() == FrameHeaders || len(hb.carry) == 0 {\n		hb.carry = hb.carry[:0]")
+	mutant("client-block-keeps-a-stale-cut-field", "client-block-state", "conn.go", "		hb.carry = hb.carry[:0]\n		hb.fields = 0", "		hb.fields = 0")
+	mutant("client-block-ignores-carried-bytes", "client-block-state", "conn.go", "	b := append(hb.carry, fr.Body().(FrameWithHeaders).Headers()...)\n	hb.carry = b[:0]", "	b := fr.Body().(FrameWithHeaders).Headers()\n	hb.carry = hb.carry[:0]")
+	mutant("client-always-at-block-start", "client-block-state", "conn.go", "	b, err := c.dec.nextField(hf, c.block.fields == 0, c.block.fields, b)", "	b, err := c.dec.nextField(hf, true, c.block.fields, b)")
+	mutant("client-cut-field-on-the-last-frame-waits", "client-block-state", "conn.go", "		if errors.Is(err, ErrUnexpectedSize) && !fr.Flags().Has(FlagEndHeaders) {\n			c.block.carry = append(c.block.carry, pb...)", "		if errors.Is(err, ErrUnexpectedSize) {\n			c.block.carry = append(c.block.carry, pb...)")
+	mutant("client-half-decoded-field-is-judged", "client-block-state", "conn.go", "			// Whatever part of the field was decoded is not a field.\n			hf.Reset()\n", "")
+	mutant("client-decode-error-fails-one-request", "client-block-state", "conn.go", "		// The dynamic table cannot be trusted from here on.\n		return nil, NewGoAwayError(CompressionError, err.Error())", "		// The dynamic table cannot be trusted from here on.\n		return nil, err")
+	mutant("client-skip-loop-forgets-to-count", "client-block-state", "conn.go", "		if len(b) == 0 && hf.Empty() {\n			break\n		}\n\n		c.block.fields++\n	}\n\n	return reason", "		if len(b) == 0 && hf.Empty() {\n			break\n		}\n	}\n\n	return reason")
+	mutant("client-skip-swallows-the-reason", "client-block-state", "conn.go", "		c.block.fields++\n	}\n\n	return reason", "		c.block.fields++\n	}\n\n	return nil")
+	mutant("client-rejection-leaves-the-block-undecoded", "no-stream-error-inside-decode-loop", "conn.go", "			return c.skipFields(fr, b, errConnectionSpecific)", "			return errConnectionSpecific")
+	mutant("client-counts-after-judging", "client-block-state", "conn.go", "		c.block.fields++\n\n		// A response carries exactly one pseudo-header", "		// A response carries exactly one pseudo-header")
+	mutant("client-unowned-block-decoded-from-scratch", "client-block-state", "conn.go", "	b := c.block.open(fr)\n\n	err := c.skipFields(fr, b, nil)", "	b := fr.Body().(FrameWithHeaders).Headers()\n\n	err := c.skipFields(fr, b, nil)")
+	mutant("client-response-ends-on-the-headers-frame", "client-block-state", "conn.go", "		return c.block.endStream && fr.Flags().Has(FlagEndHeaders)", "		return fr.Type() == FrameHeaders && fr.Flags().Has(FlagEndStream)")
+	mutant("client-response-ends-on-any-end-headers", "client-block-state", "conn.go", "		return c.block.endStream && fr.Flags().Has(FlagEndHeaders)", "		return c.block.endStream || fr.Flags().Has(FlagEndHeaders)")
+	mutant("client-end-stream-flag-not-remembered", "client-block-state", "conn.go", "		hb.endStream = fr.Flags().Has(FlagEndStream)\n", "")
+	mutant("client-malformed-response-not-reset", "client-block-state", "conn.go", "	if fr.Type() != FrameResetStream {\n		c.cancelStream(fr.Stream(), ProtocolError)\n	}\n", "")
+	mutant("client-answers-a-reset-with-a-reset", "client-block-state", "conn.go", "	if fr.Type() != FrameResetStream {\n		c.cancelStream(fr.Stream(), ProtocolError)\n	}\n", "	c.cancelStream(fr.Stream(), ProtocolError)\n")
+	mutant("client-carries-on-after-a-compression-error", "client-block-state", "conn.go", "	if errors.As(err, &connErr) && connErr.frameType == FrameGoAway {\n		c.setLastErr(err)\n\n		return true", "	if errors.As(err, &connErr) && connErr.frameType == FrameGoAway {\n		c.setLastErr(err)\n\n		return false")
 }
